@@ -261,6 +261,31 @@ def main():
         if r["rc"] not in (0, 1):
             infra.append("%s shard %d: exit code %s; stderr tail: %s" % (label, j["shard"], r["rc"], r["stderr"][-800:]))
 
+    # ---- differential comparison across builds (same generated cases on every build) ----------
+    programs = 0
+    disagreements_checked = 0
+    if cfg.get("cross_build"):
+        groups = {}
+        for r in results:
+            rep = r["report"]
+            if rep is None:
+                continue
+            j = r["job"]
+            key = (tuple(sorted(j["params"].items())), j["shard"])
+            pairs = dict(p.split(":") for p in rep.get("pairs", []))
+            groups.setdefault(key, {})[j["build"]] = pairs
+        for key, by_build in groups.items():
+            builds = sorted(by_build)
+            common = set.intersection(*[set(by_build[b]) for b in builds]) if builds else set()
+            programs += len(common)
+            for h in common:
+                traces = {b: by_build[b][h] for b in builds}
+                disagreements_checked += len(builds) - 1
+                if len(set(traces.values())) > 1:
+                    path = os.path.join(REPLAYS, "%s-crossbuild-%s.json" % (pid, h))
+                    json.dump(dict(property=pid, build="any", note="builds disagree on the result trace of the generated case with this hash; regenerate with the job parameters below", case_hash=h, params=dict(key[0]), shard=key[1], seed=seed, tier=tier, traces=traces), open(path, "w"), indent=1)
+                    violations.append(dict(signature="cross-build:trace-differs", detail="builds disagree on program %s: %s" % (h, traces), replay=path, build="/".join(builds)))
+
     wall = time.time() - t0
     meta = cfg["meta"]
     coverage = dict(
@@ -280,6 +305,9 @@ def main():
         jobs=len(jobs),
         build_s=round(t_build, 1),
     )
+    if cfg.get("cross_build"):
+        coverage["programs"] = programs
+        coverage["disagreements_checked"] = disagreements_checked
     if meta.get("exhaustive") and enumerated > 0 and not violations:
         coverage["exhaustive"] = True
         coverage["exhaustive_scope"] = meta["exhaustive"]
